@@ -31,5 +31,19 @@ import LexVerif.Model.Ops.WriteAlgos
 -- string→float algorithm models (fast path, Eisel–Lemire, Bellerophon, power-of-two) and their op handlers
 import LexVerif.Model.Ops.ParseAlgos
 import LexVerif.Model.WriteRadixInt
+-- whole generic-radix float writer (radix.rs) with exact IEEE arithmetic, its `wf` handler, proofs (Props/C07)
+import LexVerif.Model.WriteRadix
+import LexVerif.Model.Ops.WriteRadix
+import LexVerif.Proof.WriteRadixF
+import LexVerif.Proof.WriteRadixInteger
+import LexVerif.Proof.WriteRadixWF
+import LexVerif.Proof.WriteRadixTerm
+import LexVerif.Proof.WriteRadixTermInt
+import LexVerif.Proof.WriteRadixFrac
+import LexVerif.Proof.WriteRadixIntText
 -- API-level pipeline model (fast path → moderate path → slow path) and its op handler `apf`
 import LexVerif.Model.Ops.ParseFloatAlgo
+-- big-integer slow path (slow.rs / bigint.rs): models, op handler, theorems
+import LexVerif.Model.Ops.Slow
+import LexVerif.Props.C01Slow
+import LexVerif.Props.C01SlowMain
